@@ -197,28 +197,57 @@ def vtk_grammar(repo, col):
             if isinstance(a, ast.Call) and isinstance(a.func, ast.Attribute) \
                     and a.func.attr == "format":
                 a = a.func.value
-            if isinstance(a, ast.Constant) and isinstance(a.value, str):
-                writes.append(a.value)
-            elif isinstance(a, ast.JoinedStr):
-                writes.append("".join(v.value if isinstance(v, ast.Constant)
-                                      else "{}" for v in a.values))
+            def text_of(a, depth=0):
+                """Literal text of a written expression, with `{}` for the
+                parts that are computed."""
+                if isinstance(a, ast.Constant) and isinstance(a.value, str):
+                    return a.value
+                if isinstance(a, ast.Name) and depth < 3:
+                    v = owner_f.module.const(a.id)
+                    if v is not None:
+                        return text_of(v, depth + 1)
+                    return "{}"
+                if isinstance(a, ast.JoinedStr):
+                    out = ""
+                    for v in a.values:
+                        if isinstance(v, ast.Constant):
+                            out += str(v.value)
+                        elif isinstance(v, ast.FormattedValue) and \
+                                isinstance(v.value, ast.Name) and depth < 3 \
+                                and owner_f.module.const(v.value.id) is not \
+                                None and v.format_spec is None:
+                            out += text_of(owner_f.module.const(v.value.id),
+                                           depth + 1) or "{}"
+                        else:
+                            out += "{}"
+                    return out
+                if isinstance(a, ast.BinOp) and isinstance(a.op, ast.Add):
+                    l, r = text_of(a.left, depth), text_of(a.right, depth)
+                    return (l or "{}") + (r or "{}")
+                if isinstance(a, ast.Call) and \
+                        isinstance(a.func, ast.Attribute) and \
+                        a.func.attr == "format":
+                    return text_of(a.func.value, depth)
+                return None
+            t_ = text_of(a)
+            if t_ is not None:
+                writes.append(t_)
     want = ["# vtk DataFile Version 3.0\n", None, "ASCII\n",
             "DATASET POLYDATA\n", "POINTS ", "POLYGONS ", "POINT_DATA ",
             "SCALARS ", None, "\nLOOKUP_TABLE "]
+    # the keywords appear in this order in the text that is written (one
+    # write per keyword or several keywords in one write)
+    stream = "\x00".join(writes)
     pos = 0
     missing = []
     for w in want:
         if w is None:
             continue
-        found = None
-        for k in range(pos, len(writes)):
-            if writes[k].startswith(w):
-                found = k
-                break
-        if found is None:
+        k = stream.find(w.strip("\n"), pos)
+        if k < 0:
             missing.append(w.strip())
         else:
-            pos = found + 1
+            pos = k + len(w.strip("\n"))
     # a keyword that is not written by this function or its local helpers
     # but does occur as a literal elsewhere in the module (a writer class, a
     # table of section names) is not evidence of a defect
